@@ -51,7 +51,11 @@ class C16:
         # client-chosen integer ids next to server-numbered jobs: the id a client picked may be the next serial number
         intids = narrow_cfg(tier, {"add", "addanon", "pull", "eof", "finish"}, maxjobs=3, bound=8 if tier == "quick" else 10, idnames=(2, 1, 3))
         falsy = narrow_cfg(tier, {"add", "readd", "pull", "eof", "finish", "kill"}, bound=8 if tier == "quick" else 10, idnames=("", 0))
+        # client-chosen ids that are exactly the next two numbers the server would hand out
+        collide = narrow_cfg(tier, {"add", "addanon", "pull", "finish", "eof"}, workers=("w1", "w2"), maxjobs=3, bound=10 if tier == "quick" else 12,
+                             idnames=(3, 4, "x"))
         return X.search_phases(self.id, [("wide", cfg, cap), ("narrow-deep", narrow, 60 if tier == "quick" else 600),
+                                         ("server-numbers-taken", collide, 60 if tier == "quick" else 300),
                                          ("integer-ids", intids, 60 if tier == "quick" else 300),
                                          ("falsy-ids", falsy, 60 if tier == "quick" else 300)], tier, seed,
                                self.families, rule=RULE + "; second phase: the narrow configuration (1 channel, 2 workers, 2 jobs) to a deeper bound; third phase: client-chosen integer ids (2, 1, 3) mixed with server-numbered jobs; fourth phase: ids '' and 0 (falsy in Python) with re-adds",
